@@ -13,6 +13,26 @@ def R(name, run, **kw):
 REPLAY = R("replay", "^TestReplay$", timeout=300)
 
 PLAN = {
+    "C01": dict(
+        pkg="c01", level="exploration",
+        technique="differential testing against an independent list-based reference matcher (rapid route-set/request generation + exhaustive small-alphabet enumeration), plus agreement of all lookup entry points",
+        level_text="Generated route sets that share radix nodes (prefix-extending growth, hostnames, several methods, fan-out across the "
+                   "50-child switch) and requests derived from them are routed by fox and by a ~150-line character-level reference matcher "
+                   "that knows nothing about trees; route, absence of route and parameters are compared, and ServeHTTP, Lookup, Reverse, "
+                   "Iter.Reverse on router, read transaction and uncommitted write transaction must agree. Small pattern pools x all short "
+                   "paths are enumerated exhaustively.",
+        level_note="Trusts harness/ref/match.go as the reading of the documented priority rules; requests on which three readings of an "
+                   "undocumented corner (catch-all value starting with '/') disagree are not judged and are counted; open finding E is excluded by signature.",
+        rule="cases: (route set, request) pairs; non-trivial = the reference backtracked at least once, or a wildcard captured a value, or "
+             "hostname routes were tried before falling back to path-only routes; distinct by (method, sorted patterns, host, path)",
+        assumptions=["reference matcher encodes the documented rules", "request paths have no empty segments; Host values are well formed"],
+        quick=[REPLAY,
+               R("exhaustive", "^TestExhaustive$", env={"C01_EXH_SEGS": 2, "C01_EXH_SUBSET": 2, "C01_EXH_PATHLEN": 6}, timeout=900),
+               R("random", "^(TestRandom|TestFanOut)$", checks=15000, timeout=900)],
+        thorough=[REPLAY,
+                  R("exhaustive", "^TestExhaustive$", shards=16, env={"C01_EXH_SEGS": 2, "C01_EXH_SUBSET": 3, "C01_EXH_PATHLEN": 7}, timeout=3000),
+                  R("random", "^(TestRandom|TestFanOut)$", checks=150000, shards=16, timeout=3000)],
+    ),
     "C17": dict(
         pkg="c17", level="exploration",
         technique="exhaustive small-alphabet enumeration + rapid random generation + native fuzzing against a split-and-stack reference implementation",
